@@ -1,14 +1,23 @@
 import Sudachi.Model.Recycle
+import Sudachi.Model.RecycleFast
 /-!
 # Line protocol of C10: replay a history through the discipline model and print every recycled length
 
 `C10 hist idx=N mode=<0|1|2> [reset_variant=cur|fix] ops=<op>/<op>/…` → `ok <state after op 1>|<state after op 2>|…`
+`C10 pysess idx=N mode=m fields=bits [reset_variant=…] calls=<call>/…` → what Python sees after every `tokenize` call.
 
 The element type is `Nat`.  Text buffers hold one element per byte: `1` for the first byte of a
 character, `0` otherwise, so `chars`, `c2b`, `b2c`, `identMap` are real functions of the buffer content
 (a stale prefix would propagate exactly as in the Rust).  Data-dependent payloads (what a plugin
-replaces, the candidates per offset, the final path length, where an analysis fails) are the facts the
+replaces, the candidates per offset, the final path, where an analysis fails) are the facts the
 harness measured on a FRESH tokenizer/buffer for the same text; they are attached to the operation.
+Result nodes carry their IDENTITY (`q<id>,<id>,…`: one number per morpheme of the fresh result - hash of its range in
+the normalised text, word id and cumulative cost; the nodes `split_into`/`lookup` appended), so the printed state
+compares the CONTENT of every result list (`hashNodes`), not only its length, through every swap / append / clear.
+
+Executed path: `handle` runs `replayX` (lattice rows as arrays, `Model/RecycleFast.lean`) with `payloadOfA`
+(candidates in an array); `handleL`/`replay`/`payloadOf` are the list-model specification, `handle = handleL` is
+`Recycle.IO.handle_eq` (`C10.driver_answer_eq_model`).
 -/
 namespace Recycle.IO
 open Recycle
@@ -50,7 +59,10 @@ structure PlugFact where
   usesChars : Bool
   kind : PlugKind
 
-inductive Tail | path (n : Nat) | fail | unwind | none
+/-- how the path phase ends: `path n` = n nodes without identity, `nodes l` = the nodes of the fresh result (one
+number per morpheme: a hash of its range, word id and cost), `fail`/`unwind` = Err / panic after the path was taken,
+`none` = not reached -/
+inductive Tail | path (n : Nat) | nodes (l : List Nat) | fail | unwind | none
 
 structure AFacts where
   text : List Nat
@@ -63,9 +75,10 @@ def zeros (n : Nat) : List Nat := List.replicate n 0
 
 def nthD {α : Type} (l : List α) (n : Nat) (d : α) : α := match l[n]? with | some x => x | none => d
 
-/-- the payload of one operation (all facts default to "nothing") -/
-def payloadOf (plugs : List PlugFact) (cands : List (List Nat)) (eos : Bool) (tail : Tail)
-    (splitK : Nat) (lookK : Nat) (lookOk : Bool) : Payload Nat :=
+/-- the payload of one operation (all facts default to "nothing"); `candsAt off` = ends of the candidates that
+start at character offset `off` -/
+def payloadWith (candsAt : Nat → List Nat) (plugs : List PlugFact) (eos : Bool) (tail : Tail)
+    (splitNs : List Nat) (lookNs : List Nat) (lookOk : Bool) : Payload Nat :=
   { maxLen := 49149, reallyMax := 65535,
     identMap := fun m => zeros (m.length + 1),
     chars := fun m => zeros (countChars m),
@@ -90,7 +103,7 @@ def payloadOf (plugs : List PlugFact) (cands : List (List Nat)) (eos : Bool) (ta
     contDefault := 0, contWrites := fun _ => [],
     ob2cDefault := 0, ob2cWrites := fun _ => [],
     bos := 0,
-    cands := fun _ off => (nthD cands off []).map (fun e => (e, 0)),
+    cands := fun _ off => (candsAt off).map (fun e => (e, 0)),
     connect := fun _ _ => (0, 0),
     eosOf := fun _ => if eos then some 0 else none,
     fillTop := fun e _ => match e with | some _ => [0] | none => [],
@@ -98,11 +111,24 @@ def payloadOf (plugs : List PlugFact) (cands : List (List Nat)) (eos : Bool) (ta
     rewritePath := fun _ _ _ p =>
       match tail with
       | .path n => .nodes (p ++ zeros n)
+      | .nodes l => .nodes (p ++ l)
       | .fail => .fail
       | .unwind => .unwind
       | .none => .nodes p,
-    splitNodes := fun _ _ _ _ => zeros splitK,
-    lookupNodes := fun _ _ => (zeros lookK, lookOk) }
+    splitNodes := fun _ _ _ _ => splitNs,
+    lookupNodes := fun _ _ => (lookNs, lookOk) }
+
+/-- the payload the theorems and examples speak about: candidates looked up in the list -/
+def payloadOf (plugs : List PlugFact) (cands : List (List Nat)) (eos : Bool) (tail : Tail)
+    (splitK : Nat) (lookK : Nat) (lookOk : Bool) : Payload Nat :=
+  payloadWith (fun off => nthD cands off []) plugs eos tail (zeros splitK) (zeros lookK) lookOk
+
+/-- the payload the driver executes: the same, candidates looked up in an array (the list look-up made the
+position loop quadratic); equal to `payloadOf` (`Recycle.IO.payloadOfA_eq`) -/
+def payloadOfA (plugs : List PlugFact) (cands : List (List Nat)) (eos : Bool) (tail : Tail)
+    (splitK : Nat) (lookK : Nat) (lookOk : Bool) : Payload Nat :=
+  let ca := cands.toArray
+  payloadWith (fun off => match ca[off]? with | some x => x | none => []) plugs eos tail (zeros splitK) (zeros lookK) lookOk
 
 def plainPayload : Payload Nat := payloadOf [] [] false .none 0 0 true
 
@@ -132,12 +158,20 @@ def parseTail (s : List Char) : Option Tail :=
   | ['x'] => some .unwind
   | ['-'] => some .none
   | 'p' :: r => (Wire.nat? r).map .path
+  | 'q' :: r => (Wire.natList? r).map .nodes
   | _ => none
+
+/-- nodes appended by `split_into` / `lookup`: `q<h>,<h>,…` (identities, `q` = none) or a bare count -/
+def parseNodes (s : List Char) : Option (List Nat) :=
+  match s with
+  | 'q' :: r => Wire.natList? r
+  | _ => (Wire.nat? s).map zeros
 
 def parseCands (s : List Char) : Option (List (List Nat)) :=
   if s = ['-'] then some [] else Wire.allSome ((Wire.splitOn ';' s).map Wire.natList?)
 
-def parseOp (s : List Char) : Option (Payload Nat × Op Nat) :=
+/-- `fast` selects the array look-up of the candidates (`payloadOfA`, what the driver runs) -/
+def parseOpWith (fast : Bool) (s : List Char) : Option (Payload Nat × Op Nat) :=
   match Wire.splitOn ':' s with
   | [['M'], m] => (Wire.nat? m).map (fun m => (plainPayload, .setMode (modeOf m)))
   | [['S'], b] => (Wire.nat? b).map (fun b => (plainPayload, .setSubset (subsetOfBits b)))
@@ -146,21 +180,30 @@ def parseOp (s : List Char) : Option (Payload Nat × Op Nat) :=
   | [['X'], j] => (Wire.nat? j).map (fun j => (plainPayload, .clear j))
   | [['K'], j] => (Wire.nat? j).map (fun j => (plainPayload, .collect j))
   | [['P'], i, idx, m, j, k] =>
-    match Wire.nat? i, Wire.nat? idx, Wire.nat? m, Wire.nat? j, Wire.nat? k with
-    | some i, some idx, some m, some j, some k =>
-      some (payloadOf [] [] false .none k 0 true, .splitInto i idx (modeOf m) j)
+    match Wire.nat? i, Wire.nat? idx, Wire.nat? m, Wire.nat? j, parseNodes k with
+    | some i, some idx, some m, some j, some ns =>
+      some (payloadWith (fun _ => []) [] false .none ns [] true, .splitInto i idx (modeOf m) j)
     | _, _, _, _, _ => none
   | [['L'], j, q, k, ok] =>
-    match Wire.nat? j, flagsOfRle q, Wire.nat? k, Wire.nat? ok with
-    | some j, some q, some k, some ok => some (payloadOf [] [] false .none 0 k (ok = 1), .lookup j q)
+    match Wire.nat? j, flagsOfRle q, parseNodes k, Wire.nat? ok with
+    | some j, some q, some ns, some ok => some (payloadWith (fun _ => []) [] false .none [] ns (ok = 1), .lookup j q)
+    | _, _, _, _ => none
+  -- `L:…:S`: the linked `MorphemeList::lookup` records the subset of the call in the list (repair 171a12c; harness probe)
+  | [['L'], j, q, k, ok, ['S']] =>
+    match Wire.nat? j, flagsOfRle q, parseNodes k, Wire.nat? ok with
+    | some j, some q, some ns, some ok =>
+      some ({ payloadWith (fun _ => []) [] false .none [] ns (ok = 1) with lookupSets := true }, .lookup j q)
     | _, _, _, _ => none
   | [['A'], text, plugs, eos, tail, cands] =>
     match flagsOfRle text, Wire.allSome ((Wire.items ',' (if plugs = ['-'] then [] else plugs)).map parsePlug),
           Wire.nat? eos, parseTail tail, parseCands cands with
     | some text, some plugs, some eos, some tail, some cands =>
-      some (payloadOf plugs cands (eos = 1) tail 0 0 true, .analyse text)
+      some ((if fast then payloadOfA plugs cands (eos = 1) tail 0 0 true else payloadOf plugs cands (eos = 1) tail 0 0 true),
+            .analyse text)
     | _, _, _, _, _ => none
   | _ => none
+
+def parseOp (s : List Char) : Option (Payload Nat × Op Nat) := parseOpWith false s
 
 def showOutcome : Outcome → String
   | .ok => "ok"
@@ -192,13 +235,16 @@ def showTok (t : Tok Nat) : String :=
   (match t.topPath with | none => "-" | some p => toString p.length) ++ "," ++ toString (bitsOfSubset t.subset) ++
   "," ++ toString (modeNum t.mode) ++ ";l=" ++ showLattice t.lattice
 
+/-- CONTENT of a result list: hash over the node identities in order -/
+def hashNodes (l : List Nat) : Nat := l.foldl (fun h x => (h * 1000003 + x + 1) % 2147483647) 7
+
 def showLists (w : World Nat) : String :=
   if w.lists.isEmpty then "-" else
   Wire.joinWith "," (w.lists.map (fun L =>
     match w.parts[L.part]? with
     | none => "?"
     | some p => toString L.nodes.length ++ "." ++ toString (bitsOfSubset p.subset) ++ "." ++
-        (if p.input.state = .clean then "c" else toString p.input.original.length)))
+        (if p.input.state = .clean then "c" else toString p.input.original.length) ++ "." ++ toString (hashNodes L.nodes)))
 
 def showState (w : World Nat) (o : Outcome) : String :=
   showOutcome o ++ ";" ++ showTok w.tok ++ ";m=" ++ showLists w
@@ -209,6 +255,14 @@ def replay (v : ResetVariant) (w : World Nat) : List (Payload Nat × Op Nat) →
     let r := w.step v P op
     replay v r.1 rest (showState r.1 r.2 :: acc)
 
+/-- the EXECUTED replay: rows as arrays (`Model/RecycleFast.lean`); every printed state is the state of the list
+model (`XWorld.abs`), proved in `Proofs/RecycleFast.lean` (`replayX_eq`) -/
+def replayX (v : ResetVariant) (x : XWorld Nat) : List (Payload Nat × Op Nat) → List String → List String
+  | [], acc => acc.reverse
+  | (P, op) :: rest, acc =>
+    let r := x.step v P op
+    replayX v r.1 rest (showState r.1.abs r.2 :: acc)
+
 /-- the token `reset_variant=cur|fix` of the case line; `cur` when the token is absent.  The harness writes
 `fix` when `StatefulTokenizer::reset` of the tree it is built against re-creates a missing path
 (`get_or_insert_with(Vec::new)`). -/
@@ -217,12 +271,72 @@ def parseVariant (toks : List (List Char)) : Option ResetVariant :=
   | none => some .cur
   | some w => if w = "cur".toList then some .cur else if w = "fix".toList then some .fix else none
 
-/-- `C10 hist idx=N mode=m [reset_variant=cur|fix] ops=…` -/
-def handle (toks : List (List Char)) : String :=
+/-! ### Python sessions: `C10 pysess idx=N mode=m fields=bits [reset_variant=…] calls=<call>/<call>/…`
+
+call = `<mode|->@<out list|->@<A:…>` = one `Tokenizer.tokenize(text, mode=, out=)` on ONE Python tokenizer created with
+`dic.create(mode, fields)`.  After every call the answer carries what Python can see: did it raise (`err` = a
+SudachiError, `PANIC` = PanicException), `tok.mode`, and per result list its length and the hash of its word ids. -/
+
+def showOutcomePy : Outcome → String
+  | .ok => "ok"
+  | .err _ => "err"
+  | .panic => "PANIC"
+
+def showPyState (w : World Nat) (o : Outcome) : String :=
+  showOutcomePy o ++ ";" ++ toString (modeNum w.tok.mode) ++ ";" ++
+  (if w.lists.isEmpty then "-" else
+    Wire.joinWith "," (w.lists.map (fun L => toString L.nodes.length ++ "." ++ toString (hashNodes L.nodes))))
+
+structure PyCall where
+  mode : Option Mode
+  out : Option Nat
+  P : Payload Nat
+  text : List Nat
+
+def parseOptNat (s : List Char) : Option (Option Nat) :=
+  if s = ['-'] then some none else (Wire.nat? s).map some
+
+def parsePyCall (s : List Char) : Option PyCall :=
+  match Wire.splitOn '@' s with
+  | [m, o, a] =>
+    match parseOptNat m, parseOptNat o, parseOp a with
+    | some m, some o, some (P, .analyse text) => some ⟨m.map modeOf, o, P, text⟩
+    | _, _, _ => none
+  | _ => none
+
+def replayPy (v : ResetVariant) (w : World Nat) : List PyCall → List String → List String
+  | [], acc => acc.reverse
+  | c :: rest, acc =>
+    let r := w.pyTokenize v c.P c.mode c.out c.text
+    replayPy v r.1 rest (showPyState r.1 r.2 :: acc)
+
+def handlePy (toks : List (List Char)) : String :=
+  match Wire.kv? toks "mode", Wire.kv? toks "fields", Wire.kv? toks "calls" with
+  | some m, some f, some calls =>
+    match Wire.nat? m, Wire.nat? f, Wire.allSome ((Wire.items '/' calls).map parsePyCall), parseVariant toks with
+    | some m, some f, some calls, some v =>
+      -- `PyTokenizer::new`: `StatefulTokenizer::new(dict, mode)` then `set_subset(fields)`
+      let w0 := ((World.init (modeOf m)).step v plainPayload (.setSubset (subsetOfBits f))).1
+      "ok " ++ Wire.joinWith "|" (replayPy v w0 calls [])
+    | _, _, _, _ => "bad-op"
+  | _, _, _ => "bad-op"
+
+/-- the answer as the list model gives it (specification of `handle`) -/
+def handleL (toks : List (List Char)) : String :=
   match Wire.kv? toks "mode", Wire.kv? toks "ops" with
   | some m, some ops =>
     match Wire.nat? m, Wire.allSome ((Wire.items '/' ops).map parseOp), parseVariant toks with
     | some m, some ops, some v => "ok " ++ Wire.joinWith "|" (replay v (World.init (modeOf m)) ops [])
+    | _, _, _ => "bad-op"
+  | _, _ => "bad-op"
+
+/-- `C10 hist idx=N mode=m [reset_variant=cur|fix] ops=…`: what the driver runs - array rows, array candidate
+look-up; `handle = handleL` is `Recycle.IO.handle_eq` -/
+def handle (toks : List (List Char)) : String :=
+  match Wire.kv? toks "mode", Wire.kv? toks "ops" with
+  | some m, some ops =>
+    match Wire.nat? m, Wire.allSome ((Wire.items '/' ops).map (parseOpWith true)), parseVariant toks with
+    | some m, some ops, some v => "ok " ++ Wire.joinWith "|" (replayX v (XWorld.init (modeOf m)) ops [])
     | _, _, _ => "bad-op"
   | _, _ => "bad-op"
 
